@@ -123,7 +123,7 @@ func runC18(c *Ctx) {
 					sites = append(sites, c.at(in))
 					target := cl.Fn.(*ssa.Function)
 					for i, b := range cl.Bindings {
-						if ownedBinding(b, f, top) {
+						if c.ownedBinding(b, f, top) {
 							bad = append(bad, "closure at "+c.at(in)+" captures "+target.FreeVars[i].Name()+" ("+types.TypeString(b.Type(), func(p *types.Package) string { return p.Name() })+")")
 						}
 					}
@@ -233,7 +233,7 @@ func runC18(c *Ctx) {
 // per-batch record (a struct type declared inside the owner function, by value
 // or pointer), or a variable cell of the owner function itself holding a map, a
 // slice or the work queue (a fresh copy made by the spawning closure is not).
-func ownedBinding(b ssa.Value, in *ssa.Function, top *ssa.Function) bool {
+func (c *Ctx) ownedBinding(b ssa.Value, in *ssa.Function, top *ssa.Function) bool {
 	t := b.Type()
 	for {
 		p, ok := t.Underlying().(*types.Pointer)
@@ -284,7 +284,7 @@ func ownedBinding(b ssa.Value, in *ssa.Function, top *ssa.Function) bool {
 	case *types.Map, *types.Slice:
 		return true
 	case *types.Pointer:
-		if n, ok := e.Elem().(*types.Named); ok && n.Obj().Name() == "workQueue" {
+		if n, ok := e.Elem().(*types.Named); ok && c.on(n.Obj()) == "workQueue" {
 			return true
 		}
 	}
